@@ -67,11 +67,17 @@ def run_tlc(module, cfg, workers=4, env=None, timeout=600, simulate=None, depth=
     """module, cfg: file names relative to spec dir (or absolute)."""
     cwd = cwd or SPEC
     meta = scratch("tlc-" + os.path.basename(module).replace(".tla", ""))
-    cmd = ["java", "-XX:+UseParallelGC", "-Xss1g", "-Xmx" + xmx]
     if deque:
-        cmd.append("-Dtlc2.tool.queue.IStateQueue=StateDeque")
+        # trace validation: many small single-worker JVMs run side by side; a serial collector, C1 only
+        # and a small fingerprint set avoid most of the start-up and page-fault cost (measured 31 s -> 12 s)
+        cmd = ["java", "-XX:+UseSerialGC", "-XX:TieredStopAtLevel=1", "-Xss512m", "-Xms512m", "-Xmx" + xmx,
+               "-Dtlc2.tool.queue.IStateQueue=StateDeque"]
+    else:
+        cmd = ["java", "-XX:+UseParallelGC", "-Xss1g", "-Xmx" + xmx]
     cmd += ["-cp", JAR, "tlc2.TLC", "-workers", str(workers), "-metadir", meta, "-cleanup",
             "-noGenerateSpecTE", "-config", cfg]
+    if deque:
+        cmd += ["-fpmem", "0.05"]
     if coverage and not simulate:
         cmd += ["-coverage", "1"]
     if simulate:
